@@ -18,7 +18,8 @@ Two deviations from C14 remain for expressions WITH the flag (both named, both d
   prints `[*]` again — `stripBH`).
 * `bracketLast` (known finding C14-bracket-last): the evaluators of jp/get.go … test "last fragment" by
   position, so a trailing flag makes the fragment before it a non-last one, which drops scalar results
-  (`R().C("a").B()` on `{"a":1}` gives nothing; the re-parsed `$.a` gives 1). -/
+  (`R().C("a").B()` on `{"a":1}` gives nothing; the re-parsed `$.a` gives 1; `B()` alone gives the whole
+  document, its text `` read back gives nothing). -/
 namespace OjgVerif.JPText
 open OjgVerif
 
@@ -75,7 +76,8 @@ def endsWithFlag : BExpr → Bool
   | [some _] => false
   | _ :: r => endsWithFlag r
 
-/-- a trailing flag after at least one fragment (C14-bracket-last) -/
-def bracketLast (x : BExpr) : Bool := endsWithFlag x && !(stripB x).isEmpty
+/-- a trailing flag (C14-bracket-last); also an expression of flags only: `jp.B().Get(d)` is `[d]`, its text
+is empty and the empty expression gives nothing -/
+def bracketLast (x : BExpr) : Bool := endsWithFlag x
 
 end OjgVerif.JPText
